@@ -63,6 +63,9 @@ type NodeSpec struct {
 	CloseAfterVersion bool   `json:"close_after_version,omitempty"` // the first connection is lost after the node's version message, before its verack
 	LoseFirstN        int    `json:"lose_first_n,omitempty"`        // the scripted loss (disconnect_at_msg / close_after_version) hits the first n connections, not only the first
 	VersionTwice      bool   `json:"version_twice,omitempty"`       // on its first connection(s) the node sends its version message twice and no verack
+	UnknownFirst      bool   `json:"unknown_first,omitempty"`       // right after the handshake the node sends a message with a command unknown to the service
+	PushOnHandshake   bool   `json:"push_on_handshake,omitempty"`   // unsolicited pushes go out right after the handshake, not after the first getheaders answer
+	NotFullNode       bool   `json:"not_full_node,omitempty"`       // the node does not advertise NODE_NETWORK (it is no candidate to sync from)
 	IgnoreStop        bool   `json:"ignore_stop,omitempty"`         // answers do not end at the stop hash (all that remain, or the cap)
 	SilentFirst       bool   `json:"silent_first,omitempty"`        // the first connection never answers getheaders, later ones do
 	OffendOnce        bool   `json:"offend_once,omitempty"`         // forbidden: after it has delivered the forbidden header once the node follows the honest chain
@@ -483,6 +486,10 @@ func Execute(s *Scenario, dir string) (res *Result) {
 				n.Cap = ns.Cap
 			}
 			n.DisconnectAtMsg = ns.DisconnectAtMsg
+			n.UnknownFirst, n.PushOnHandshake = ns.UnknownFirst, ns.PushOnHandshake
+			if ns.NotFullNode {
+				n.Services = wire.SFNodeBloom
+			}
 			n.CloseAfterVersion, n.IgnoreStop, n.SilentFirst, n.LoseFirstN, n.VersionTwice = ns.CloseAfterVersion, ns.IgnoreStop, ns.SilentFirst, ns.LoseFirstN, ns.VersionTwice
 			n.DropAfterHeight = ns.DropAfterHeight
 			n.VersionLag = ns.VersionLag
